@@ -420,34 +420,59 @@ def stream_refine(run, n):
 
 # ------------------------------------------------------------------ bounds construction
 
+def gen_row(rng, kind):
+    """one (lower, upper) row as the fit functions can produce it, every degenerate pattern included.
+    kind: 'bp' | 'beta' | 'k' | 'icpt'"""
+    u = rng.random()
+    if kind in ("beta", "k"):
+        x0 = rng.choice([0.0, 0.0, 1.0, 0.5, rng.uniform(1e-4, 8.0), rng.randrange(1, 40) / 8.0, -rng.uniform(1e-3, 3.0),
+                         10.0, 0.01, 1e-3, 100.0])
+        if u < 0.22:
+            return [0.0, 0.0]                                  # both initial slopes zero: max_slope = 0
+        if u < 0.34:
+            return [x0, x0]                                    # identical, non-zero (incl. negative, powers of ten)
+        if u < 0.60:
+            return [x0 - abs(x0), x0 + abs(x0)]                # get_bnds(x0) with final_bounds_scalar = 1: [0,2x0] / [2x0,0] / [0,0]
+        if u < 0.70:
+            return [0.0, 1.0] if kind == "k" else [0.0, abs(x0) * 3]
+        if u < 0.78:
+            return [abs(x0) + 1.0, -abs(x0)]                   # reversed
+        if u < 0.86:
+            return [-abs(x0) - 0.5, -abs(x0) - 0.5]            # identical negative
+        return sorted([rng.uniform(-5, 20), rng.uniform(-5, 20)], reverse=rng.random() < 0.3)
+    if kind == "bp":
+        a = rng.choice([rng.uniform(-10, 60), rng.randrange(-40, 240) / 4.0, 0.0, 10.0, 50.0])
+        if u < 0.15:
+            return [a, a]                                      # equal balance-point limits (degenerate segment range / pinned)
+        return [a, a + rng.choice([0.25, 1.0, 10.0, rng.uniform(0.1, 60)])]
+    a = rng.choice([0.0, rng.uniform(0, 50), rng.randrange(0, 200) / 4.0, 1.0, 100.0])
+    if u < 0.12:
+        return [a, a]                                          # constant usage: identical quantiles
+    return [a, a + rng.choice([0.5, 1.0, rng.uniform(0.1, 80)])]
+
+
+LAYOUT_KINDS = {0: ["bp", "beta", "k", "bp", "beta", "k", "icpt"], 1: ["bp", "beta", "bp", "beta", "icpt"],
+                2: ["bp", "beta", "k", "icpt"], 3: ["bp", "beta", "icpt"], 4: ["icpt"]}
+
+
 def stream_bounds(run, n):
+    """the three *_update_bnds functions exactly as the fit functions call them (the two lines of fit_c_hdd_tidd that keep
+    identical balance-point bounds are replayed for the one-sided layouts), degenerate rows included"""
     from opendsm.eemeter.models.daily.base_models import c_hdd_tidd, hdd_tidd_cdd, tidd
     terms, kept = [], []
+    rows = lambda rs: coq_list(["(%s, %s)" % (fhex(r[0]), fhex(r[1])) for r in rs])
     for k in range(n):
         layout = k % 5
-        nrow = [7, 5, 4, 3, 1][layout]
-
-        def row():
-            a, b = run.rng.uniform(-5, 100), run.rng.uniform(-5, 100)
-            u = run.rng.random()
-            if u < 0.3:
-                a = -abs(a)
-            return [a, b]
-
-        def distinct_rows(m):
-            rows = [row() for _ in range(m)]
-            return [r if r[0] != r[1] else [r[0], r[0] + 1.0] for r in rows]
-        nb, b0 = distinct_rows(nrow), distinct_rows(nrow)
-        # slope / smoothing rows come from get_bnds(x0) around a non-negative x0: their upper end is positive
-        for rows_ in (nb, b0):
-            for r_ in rows_[1:-1]:
-                r_[1] = abs(r_[1]) + 0.5
-                if r_[0] > 0 and run.rng.random() < 0.5:
-                    r_[0] = -r_[0]
-        pinned = layout in (2, 3) and run.rng.random() < 0.3
-        if pinned:
-            b0[0] = [b0[0][0], b0[0][0]]
-        use_none = run.rng.random() < 0.2
+        kinds = LAYOUT_KINDS[layout]
+        b0 = [gen_row(run.rng, kd) for kd in kinds]
+        nb = [gen_row(run.rng, kd) for kd in kinds]
+        if k % 11 == 0:                      # the pattern of an initial fit without any temperature response
+            for j, kd in enumerate(kinds):
+                if kd == "beta":
+                    b0[j] = [0.0, 0.0]
+        use_none = run.rng.random() < 0.35      # initial fit: bnds=None -> new_bnds = bnds_0
+        b0 = [[float(a), float(b)] for a, b in b0]
+        nb = [[float(a), float(b)] for a, b in nb]
         nb_arg = None if use_none else np.array(nb, dtype=float)
         b0_arr = np.array(b0, dtype=float)
         try:
@@ -456,50 +481,58 @@ def stream_bounds(run, n):
             elif layout == 1:
                 out = hdd_tidd_cdd._hdd_tidd_cdd_smooth_update_bnds(nb_arg, b0_arr.copy(), False)
             elif layout in (2, 3):
-                # as fit_c_hdd_tidd does: update, then keep identical breakpoint bounds
-                if pinned:
-                    # fix_identical_bnds would widen the row before it is restored: give the update distinct rows
-                    tmp = b0_arr.copy()
-                    tmp[0] = [b0[0][0], b0[0][0] + 1.0]
-                    out = c_hdd_tidd._c_hdd_tidd_update_bnds(nb_arg, tmp, layout == 2)
+                out = c_hdd_tidd._c_hdd_tidd_update_bnds(nb_arg, b0_arr.copy(), layout == 2)
+                if b0[0][0] == b0[0][1]:      # fit_c_hdd_tidd: "if breakpoint bounds are identical, don't expand"
                     out[0, :] = b0[0]
-                else:
-                    out = c_hdd_tidd._c_hdd_tidd_update_bnds(nb_arg, b0_arr.copy(), layout == 2)
             else:
                 out = tidd._tidd_update_bnds(nb_arg, b0_arr.copy())
-            exp = "(Some %s)" % coq_list(["(%s, %s)" % (fhex(r[0]), fhex(r[1])) for r in np.asarray(out, float)])
         except Exception as e:  # noqa
             run.corr_failures.append({"stream": "bounds", "case": {"layout": layout, "nb": nb, "b0": b0}, "impl": repr(e)})
             continue
-        if pinned:
-            b0c = [list(r) for r in b0]
-        else:
-            b0c = b0
-        nbc = b0c if use_none else nb
-        if pinned and use_none:
-            nbc = [[b0[0][0], b0[0][0] + 1.0]] + b0[1:]
-        rows = lambda rs: coq_list(["(%s, %s)" % (fhex(r[0]), fhex(r[1])) for r in rs])
-        terms.append("(%d, %s, %s, %s)" % (layout, rows(nbc), rows(b0c), exp))
-        kept.append({"layout": layout, "nb": nbc, "b0": b0c, "out": np.asarray(out, float).tolist()})
-        run.count(vlib.sha([layout, nbc, b0c]), True)
-        # oracle: the box the statement relies on
         o = np.asarray(out, float)
+        exp = "(Some %s)" % rows(o)
+        nbc = b0 if use_none else nb
+        case = {"layout": layout, "nb": nbc, "b0": b0, "new_bnds_is_None": use_none, "out": o.tolist()}
+        terms.append("(%d, %s, %s, %s)" % (layout, rows(nbc), rows(b0), exp))
+        kept.append(case)
+        degenerate = any(r[0] == r[1] for r in (b0 + nbc))
+        run.count(vlib.sha([layout, nbc, b0]), True)
+        run.dist("bounds_rows", "with identical rows" if degenerate else "all rows distinct")
+        # oracle: what the statement relies on -- slopes and smoothing cannot be negative inside the optimiser's box
         neg_rows = {0: [1, 2, 4, 5], 1: [1, 3], 2: [2], 3: [], 4: []}[layout]
         for i in neg_rows:
             if o[i, 0] < 0:
-                run.violation({"stream": "bounds", "clause": "slope / smoothing lower bound >= 0", "layout": layout, "row": i},
-                              "C12 bounds: the optimiser's box admits a negative slope or smoothing value",
-                              case=kept[-1], observation={"bounds": o.tolist()}, generator="c12.bounds")
-        if np.any(o[:, 0] > o[:, 1]):
-            run.violation({"stream": "bounds", "clause": "lower <= upper", "layout": layout},
-                          "C12 bounds: a row of the optimiser's box is reversed", case=kept[-1],
-                          observation={"bounds": o.tolist()}, generator="c12.bounds")
+                run.violation({"stream": "bounds", "clause": "slope / smoothing lower bound >= 0", "layout": layout, "row": i,
+                               "class": "admissibility"},
+                              "C12 bounds: the optimiser's box admits a negative slope or smoothing value (row %d = %r)"
+                              % (i, o[i].tolist()), case=case, observation={"bounds": o.tolist()}, generator="c12.bounds")
     bad = run.coq_cases("bounds", IMPORTS, "", terms, "check_bounds", shard=400)
+    if bad is None:
+        run.proof_ok = False
+    else:
+        for i in bad[:5]:
+            c = kept[i]
+            run.corr_failures.append({"stream": "bounds", "case": c, "impl": c["out"]})
+    # fix_identical_bnds itself, one row at a time
+    from opendsm.eemeter.models.daily.utilities.base_model import fix_identical_bnds
+    vals = [0.0, -0.0, 1.0, -1.0, 10.0, 100.0, 1000.0, 0.1, 0.01, 0.001, 9.999, 0.0999, 1e-5, 123456.0, -37.5, 2.5, 50.0, 0.5,
+            99.99999, 1e6, 7e-4]
+    vals += [run.rng.uniform(-200, 200) for _ in range(run.n(60, 600))] + [10.0 ** run.rng.randrange(-8, 9) for _ in range(12)]
+    terms2, kept2 = [], []
+    for v in vals:
+        for r in ([v, v], [v, v + 1.0]):
+            o = fix_identical_bnds(np.array([r], dtype=float))[0]
+            terms2.append("((%s, %s), (%s, %s))" % (fhex(r[0]), fhex(r[1]), fhex(float(o[0])), fhex(float(o[1]))))
+            kept2.append({"row": r, "out": [float(o[0]), float(o[1])]})
+            run.count(vlib.sha(["fixid", r]), r[0] == r[1])
+    bad = run.coq_cases("fix_identical", IMPORTS, "", terms2, "check_fix_identical", shard=400)
     if bad is None:
         run.proof_ok = False
         return
     for i in bad[:5]:
-        run.corr_failures.append({"stream": "bounds", "case": kept[i], "impl": kept[i]["out"]})
+        run.corr_failures.append({"stream": "fix_identical", "case": kept2[i]["row"], "impl": kept2[i]["out"],
+                                  "model": run.coq_eval(IMPORTS, "", "fix_identical_row F (%s, %s)" % (
+                                      fhex(kept2[i]["row"][0]), fhex(kept2[i]["row"][1])))})
 
 
 # ------------------------------------------------------------------ from_np_arrays directly
@@ -532,7 +565,8 @@ def stream_from_np(run, n):
 # ------------------------------------------------------------------ real fits
 
 def gen_dataset(rng, k):
-    kinds = ["both", "heating_only", "cooling_only", "flat", "heating_no_flat", "weekend", "outliers", "cooling_no_flat"]
+    kinds = ["both", "inverted", "flat", "heating_only", "heating_no_flat", "cooling_only", "inverted", "weekend", "outliers",
+             "cooling_no_flat"]
     kind = kinds[k % len(kinds)]
     family = "billing" if k % 4 == 3 else "daily"
     profile = rng.choice(["current", "current", "legacy"]) if family == "daily" else "billing"
@@ -546,6 +580,9 @@ def build_and_fit(ds):
     from opendsm.eemeter import BillingModel, DailyModel
     rng = random.Random(ds["seed"])
     kw = {"both": {}, "heating_only": {"bc": 0.0}, "cooling_only": {"bh": 0.0}, "flat": {"bh": 0.0, "bc": 0.0},
+          # usage that peaks in mild weather and falls off toward cold and hot days: the initial guess finds neither a
+          # heating nor a cooling response (both slopes zero -> identical [0,0] slope bounds)
+          "inverted": {"base": 60.0, "bh": -0.6, "bc": -0.5, "bph": 50.0, "bpc": 65.0},
           "heating_no_flat": {"bc": 0.0, "bph": 95.0}, "cooling_no_flat": {"bh": 0.0, "bpc": 5.0},
           "weekend": {"weekend": 0.6}, "outliers": {}}[ds["kind"]]
     if ds["family"] == "daily":
@@ -642,16 +679,17 @@ def main():
         "balance points; pinned one-sided balance points; intercept on the quantile bounds) for the 5 coefficient layouts, pushed "
         "through the real OptimizedResult constructor on a component with chosen temperature statistics; distinct = hash(layout, "
         "raw, statistics), non-trivial = layout other than tidd. fits: DailyModel/BillingModel.fit on generated baselines "
-        "(both / heating-only / cooling-only / flat / no-flat-region / weekend / outliers; 330-365 days; noise 1-20 %; current, "
-        "legacy and billing profiles); every OptimizedResult of fit_components and model is one evaluation. bounds: random rows "
-        "through the three *_update_bnds functions")
+        "(both / heating-only / cooling-only / flat / inverted = peaking in mild weather / no-flat-region / weekend / outliers; 330-365 days; noise 1-20 %; current, "
+        "legacy and billing profiles); every OptimizedResult of fit_components and model is one evaluation. bounds: start boxes and "
+        "get_bnds(x0) rows with every degenerate pattern (zero slopes -> [0,0], identical non-zero, [0,2x0], [2x0,0], reversed, "
+        "negative, equal balance-point limits, identical quantiles, new_bnds=None) through the three *_update_bnds functions as "
+        "the fit functions call them; fix_identical_bnds row by row (0, powers of ten, negatives)")
     run.assumptions += [
         "PARTIAL: the optimiser is an oracle with the contract 'returns a point of the box it was given' (Section hypothesis of "
         "the theorems); the contract is checked on every sampled fit only",
         "finiteness of the coefficients and the uncertainty f_unc are checked by the oracle on samples, not modelled",
         "theorems over the reals; the code computes in binary64 (same model text executed in binary64 for the correspondence)",
-        "fix_identical_bnds (widening of a degenerate row by a power of ten) is an uninterpreted function with the contract "
-        "'a non-degenerate row is returned unchanged, a degenerate one is widened'",
+        "fix_identical_bnds is modelled as coded (10 ** floor(log10|v|) found by a decade search; tied by its own stream)",
         "correspondence is sampled",
     ]
     run.cov["trusted_base"] += ["harness/c12.py (generators, adapters, oracle)", "harness/fitlib.py (dataset builders)",
